@@ -1,6 +1,7 @@
 package dsim
 
 import (
+	"context"
 	"fmt"
 	"sort"
 	"strings"
@@ -333,6 +334,14 @@ func runDownFamily(s *Sim, prop string) {
 			s.Stat("env.close-with-deadline")
 		}
 		op := s.Start(0, cl)
+		if prop == "C04" && s.Idle(1) && t.Bool("second-close-at-the-same-time", 1, 4) {
+			// another goroutine of the application closes the same stream at the same moment: one of the
+			// two calls does the work (the other is told so); the final acks still precede the close request
+			cl2 := &Op{Name: "Downstream.Close", Args: fmt.Sprintf("d%d (second caller)", h.Idx), Meta: h, Run: func(ctx context.Context) (any, error) { return nil, h.D.Close(ctx) }}
+			cl2.CtxKind, cl2.Timeout = "deadline", 5*time.Second
+			s.Start(1, cl2)
+			s.Stat("env.second-close-at-the-same-time")
+		}
 		s.Wait()
 		y.PumpUntil(func() bool { return op.harvested }, time.Second, 30*time.Second)
 	}
